@@ -416,6 +416,7 @@ Fixpoint meas_at (p : pt) (s : scope) {struct p} : result unit :=
   | Atom _ _ _ _ _ ms => meas s ms
   | AMC subs _ ms =>
       bind (meas s ms) (fun _ => fold_unit (fun q => meas_at q s) subs)
+  | Par inner _ => meas_at inner s
   | Ari inner _ _ => meas_at inner s
   | Map inner m cs => bind (eager s m cs) (fun s' => meas_at inner s')
   | Ren inner _ => meas_at inner s
